@@ -20,6 +20,22 @@ def okey(o):
     return None if o is None else (o[0], float(o[1]).hex(), o[2])
 
 
+def expected_tick(ex, r, s):
+    """Per-cell time step for the state a step starts from, evaluated by the harness
+    itself (tick table, or the real calc_timestep on a fresh unrecorded discretisation):
+    a pure function of (state, cfl), independent of when or how often the driver asks."""
+    if s.etick is None:
+        if ex.world.ticks is not None:
+            s.etick = np.array(ex.world.ticks.tick(s.t_in, r.cfl), dtype=float)
+        else:
+            from .world import ffield
+            disc = ex.oracle_disc()
+            f = ffield.fdata(disc.model, ex.world.mesh, [np.array(d, copy=True) for d in s.data_in], t=s.t_in)
+            f.data = [np.array(d, copy=True) for d in s.data_in]
+            s.etick = np.array(disc.calc_timestep(f, r.cfl), dtype=float)
+    return s.etick
+
+
 class V:
     """One violation."""
 
@@ -101,8 +117,10 @@ def check_c07(r, ex, stats):
         fin = all(s.finite_out for s in tr.steps if s.status == "ok") and \
             all(bool(np.all(np.isfinite(t.dt))) and t.dtmin > 0 for t in tr.ticks)
         # time a correct driver must have covered after that many ticks, each >= the smallest observed
-        nt = len(tr.ticks)
-        hmin_obs = min([t.dtmin for t in tr.ticks]) if tr.ticks else 0.0
+        fsteps = [x for x in tr.steps if x.kind == "full"]
+        nt = max(len(tr.ticks), len(fsteps))
+        hs_obs = [t.dtmin for t in tr.ticks] + [x.dtmin for x in fsteps]
+        hmin_obs = min(hs_obs) if hs_obs else 0.0
         if r.stop and "tottime" in r.stop:
             Tb = r.stop["tottime"]
         else:
@@ -121,7 +139,10 @@ def check_c07(r, ex, stats):
 
     if r.outcome == "raised":
         if not r.exc_injected:
-            bad("T0", "call raised %s on admissible input" % _unexpected_exception(r))
+            if r.model_failed and isinstance(r.exc, np.linalg.LinAlgError):
+                stats["discard-singular"] += 1  # the undisturbed trajectory is singular too
+            else:
+                bad("T0", "call raised %s on admissible input" % _unexpected_exception(r))
         return out
 
     full = tr.full_steps()
@@ -130,6 +151,10 @@ def check_c07(r, ex, stats):
     t0 = r.f_before[1]
     times = [t0] + [s.t_out for s in full]
     traj_finite = all(s.finite_out for s in full)
+    # T5 is about bookkeeping (dt = 0, stale memory), not about overflow of an unstable
+    # run: claim it only while the trajectory stays far from the overflow range
+    traj_moderate = all(max(float(np.max(np.abs(d))) for d in s.data_out) < 1e100 for s in full if s.finite_out) and \
+        max(float(np.max(np.abs(d))) for d in r.f0.data) < 1e100
     # the driver's documented default: stop at the last save time unless overridden
     if r.stop and "tottime" in r.stop:
         T = r.stop["tottime"]
@@ -138,7 +163,7 @@ def check_c07(r, ex, stats):
     maxit = r.stop.get("maxit") if r.stop else None
     # finiteness of the undisturbed (model) trajectory, when the executor has one
     ref_finite = None
-    if r.candidates:
+    if r.candidates and not r.model_failed:
         label0, traj0, off0 = r.candidates[0]
         if off0 + N < len(traj0.states):
             ref_finite = all(bool(np.all(np.isfinite(d))) for st in traj0.states[off0:off0 + N + 1] for d in st.data)
@@ -151,30 +176,29 @@ def check_c07(r, ex, stats):
         bad("T6", "totnit()=%d, expected itstart %d + %d" % (r.totnit, r.itstart, N), cls + "/totnit")
     prev = r.f_before[0]
     prev_t = t0
+    ticks_bad = False
     for k, s in enumerate(full):
         if s.dig_in != prev or s.t_in != prev_t:
             bad("T6", "full step %d does not start from the previous trajectory state" % (k + 1), cls + "/chain")
             break
-        tk = tr.ticks[s.tick_idx] if 0 <= s.tick_idx < len(tr.ticks) else None
-        if tk is None:
-            bad("T6", "full step %d taken without a time-step evaluation" % (k + 1), cls + "/tick")
-            break
-        if tk.dig_f != s.dig_in or tk.t != s.t_in:
-            bad("T6", "time step of full step %d was evaluated on another state" % (k + 1), cls + "/tick")
+        et = expected_tick(ex, r, s)
+        if not (bool(np.all(np.isfinite(et))) and float(np.min(et)) > 0):
+            ticks_bad = True
             break
         if r.dtlocal:
-            if not s.dt_is_array or digest_arrays([s.dt]) != tk.dig:
-                bad("T6", "full step %d under dtlocal does not use the per-cell time-step array" % (k + 1), cls + "/dtlocal")
+            if not s.dt_is_array or not np.array_equal(s.dt, et):
+                bad("T6", "full step %d under dtlocal does not use the per-cell time-step array of its state" % (k + 1), cls + "/dtlocal")
                 break
         else:
-            if s.dt_is_array or s.dt != tk.dtmin:
-                bad("T6", "full step %d uses dt=%r, the minimum over cells is %r" % (k + 1, s.dtmin, tk.dtmin), cls + "/dtmin")
+            if s.dt_is_array or s.dt != float(np.min(et)):
+                bad("T6", "full step %d uses dt=%r, the minimum over cells of the CFL time step of its state is %r" %
+                    (k + 1, s.dtmin, float(np.min(et))), cls + "/dtmin")
                 break
         prev, prev_t = s.dig_out, s.t_out
     if r.qn is not None and N > 0 and (r.qn[0] != full[-1].dig_out or r.qn[1] != full[-1].t_out):
         bad("T6", "final solver state is not the output of the last full step", cls + "/qn")
 
-    ticks_ok = all(bool(np.all(np.isfinite(t.dt))) and t.dtmin > 0 for t in tr.ticks)
+    ticks_ok = (not ticks_bad) and all(bool(np.all(np.isfinite(t.dt))) and t.dtmin > 0 for t in tr.ticks)
     if not ticks_ok:
         # unphysical state (negative pressure/height...): the time-step source itself
         # returned NaN/inf/<=0; nothing of T2-T7 is defined on such a trajectory
@@ -277,8 +301,7 @@ def check_c07(r, ex, stats):
         k = len([x for x in full if x.idx < s.idx])
         cur_dig = r.f_before[0] if k == 0 else full[k - 1].dig_out
         cur_t = times[k]
-        tk = tr.ticks[s.tick_idx] if 0 <= s.tick_idx < len(tr.ticks) else None
-        h = tk.dtmin if tk is not None else float("inf")
+        h = float(np.min(expected_tick(ex, r, s)))  # CFL step of the state the side step starts from
         if s.dig_in != cur_dig or s.t_in != cur_t:
             bad("T4", "side step to t=%r started from t=%r which is not the current trajectory state (t=%r)" %
                 (sv, s.t_in, cur_t), cls + "/from")
@@ -292,11 +315,31 @@ def check_c07(r, ex, stats):
             stats["T4a"] += 1
             if traj_finite and not all(bool(np.array_equal(a, b)) for a, b in zip(sn[4], r.f0.data)):
                 bad("T4a", "snapshot at the start time differs from the initial state", cls)
-        if traj_finite:
+        if (not s.dt_is_array) and s.dt <= 0 and s.dig_in == cur_dig and traj_finite:
+            # save time already reached by the current state: nothing to integrate
+            stats["T4a"] += 1
+            if sn[0] != cur_dig:
+                bad("T4a", "snapshot for a save time equal to the time of the current state (step length %r) "
+                    "differs from that state" % s.dt, cls + "/dt0")
+        elif traj_finite:
             stats["T5"] += 1
             if not sn[3]:
-                bad("T5", "snapshot at t=%r is not finite although the trajectory is" % sn[1],
-                    "%s/%s" % (cls, "dt0" if s.dt == 0 else "dt"))
+                # bookkeeping or overflow?  a fresh integrator copy taking the same step from the
+                # same state decides: if that overflows too, the run is simply unstable
+                ref_ok = None
+                if r.candidates and not s.dt_is_array and not r.model_failed:
+                    label0, traj0, off0 = r.candidates[0]
+                    if off0 + k < len(traj0.states) and traj0.digs[off0 + k] == cur_dig:
+                        try:
+                            ref = traj0.side(off0 + k, s.dt)
+                            ref_ok = all(bool(np.all(np.isfinite(d))) for d in ref.data)
+                        except Exception:  # noqa
+                            ref_ok = None
+                if ref_ok:
+                    bad("T5", "snapshot at t=%r is not finite although the trajectory is and a plain step of the "
+                        "same length from the same state is" % sn[1], "%s/%s" % (cls, "dt"))
+                else:
+                    stats["T5-overflow-discard"] += 1
     # T3: stamps (matching above already bounds the error; make it explicit)
     for sn, sv in zip(snaps, matched):
         if abs(sn[1] - sv) > tol(sv, sn[1], t0):
@@ -335,6 +378,9 @@ def check_c08(r, ex, stats):
     tr = r.trace
     if isinstance(r.exc, SimBudget):
         return out
+    if r.model_failed:
+        stats["discard-singular"] += 1
+        return out
     if r.outcome == "raised" and not r.exc_injected:
         bad("P0", "call raised %s on admissible input" % _unexpected_exception(r))
         return out
@@ -347,7 +393,19 @@ def check_c08(r, ex, stats):
         stats["P1-unspecified"] += 1
         return out
     m = ex.match_of(r)
+    if r.model_failed:
+        stats["discard-singular"] += 1
+        return out
     stats["P1"] += 1
+    if m is None and r._snap_mismatch is not None:
+        # some candidate explains the trajectory but none explains the snapshots too
+        label, k, kk, why, d, tsn = r._snap_mismatch
+        if why == "from":
+            bad("P2", "snapshot %d was not taken from model state %d (%s)" % (k, kk, label), cls + "/from")
+        else:
+            bad("P2", "snapshot %d (t=%r) differs from a fresh step of the same length from trajectory state %d "
+                "(%s): max|diff|=%.3e" % (k, tsn, kk, label, d), cls + "/value")
+        return out
     if m is None:
         mm = r._mismatch
         hist = "first-call" if not [h for h in ex.solver_hist.get(r.s, []) if h[0] < r.i] else "after-history"
@@ -365,31 +423,27 @@ def check_c08(r, ex, stats):
         _check_monitors(r, traj, off, N, stats, bad, prefix_ok=True)
         return out
 
-    # ---- P2: snapshots equal the model's side step ---------------------------------
+    # ---- P2 (values: part of the candidate match above) and P4 tags of snapshots -------
     res = r.result
     side = tr.side_steps()
     t0 = r.f_before[1]
     for k, sn in enumerate(res):
-        cand = [s for s in side if s.dig_out == sn[0] and s.t_out == sn[1]]
+        cand = [s for s in side if s.dig_out == sn[0] and feq(s.t_out, sn[1])]
         if cand:
             s = cand[0]
             kk = len([x for x in full if x.idx < s.idx])
-            if not (s.dt > 0):
-                continue  # degenerate side step, C07's business
+            if s.dt_is_array or not (s.dt > 0):
+                continue
             stats["P2"] += 1
-            ref = traj.side(off + kk, s.dt)
-            # the model steps by (s - t_k) exactly like a user calling step()
-            if not feq(s.t_in, traj.states[off + kk].time) or s.dig_in != traj.digs[off + kk]:
-                bad("P2", "snapshot %d was not taken from model state %d" % (k, kk), cls + "/from")
-            elif digest_field(ref) != sn[0]:
-                d = max(float(np.max(np.abs(np.nan_to_num(a - b)))) for a, b in zip(sn[4], ref.data))
-                bad("P2", "snapshot %d (t=%r) differs from a fresh step from trajectory state %d: max|diff|=%.3e" %
-                    (k, sn[1], kk, d), cls + "/value")
-            # P4 tag
             stats["P4"] += 1
             if sn[2] != r.itstart + kk:
                 bad("P4", "snapshot %d carries it=%d, expected %d (= %d + %d full steps)" %
                     (k, sn[2], r.itstart + kk, r.itstart, kk), cls + "/snapshot-it")
+        elif sn[1] == t0 and sn[0] == r.f_before[0] and k == 0:
+            stats["P4"] += 1
+            if sn[2] != r.itstart:
+                bad("P4", "snapshot of the initial state carries it=%d, expected %d" % (sn[2], r.itstart),
+                    cls + "/start-it")
     # fallback final state: P4 tag = totnit
     if len(res) == 1 and not side and N >= 1:
         sn = res[0]
